@@ -254,6 +254,8 @@ UnstructureClauses(s, l) ==
        ELSE IF l = 2 /\ prev.e = "Construct"
             THEN (IF JEq(ev.w, Wire(prev.o)) THEN {}
                   ELSE IF KeysEq(ev.w, Wire(prev.o)) THEN {"U_exact"} ELSE {"U_exact", "U_keys"})
+       ELSE IF l = 4 /\ s.sk = "reparse"      \* Structure(j) . Scramble(that object) . Structure(j) . Unstructure: parsed objects share nothing
+            THEN (IF Lossless(prev.j, ev.w) /\ RT(prev.j, ev.w, T) THEN {} ELSE {"U_lossless"})
        ELSE IF l = 4 /\ s.sk = "mutate"       \* Construct(o) . Unstructure . Assign(-> o2) . Unstructure: the object's CURRENT state is written
             THEN (IF JEq(ev.w, Wire(s.ev[3].o)) THEN {}
                   ELSE IF KeysEq(ev.w, Wire(s.ev[3].o)) THEN {"U_exact"} ELSE {"U_exact", "U_keys"})
@@ -285,6 +287,7 @@ AssignClauses(s, l) == IF s.ev[l].ok THEN {} ELSE {"K_ok"}
 
 Clauses(s, l) == CASE s.ev[l].e = "Structure" -> StructureClauses(s, l)
                    [] s.ev[l].e = "Assign" -> AssignClauses(s, l)
+                   [] s.ev[l].e = "Scramble" -> {}          \* the harness destroyed the first parsed object in place
                    [] s.ev[l].e = "Validate" -> ValidateClauses(s, l)
                    [] s.ev[l].e = "Unstructure" -> UnstructureClauses(s, l)
                    [] s.ev[l].e = "Construct" -> ConstructClauses(s, l)
